@@ -488,7 +488,7 @@ func c09Pipe(c *Ctx) {
 	r := c.Res
 	n := 1200
 	if c.Thorough {
-		n *= 20
+		n *= 5
 	}
 	mismatch := func(key, what, broken string, in map[string]interface{}, impl, model string) {
 		r.violate(Violation{Kind: "correspondence", Key: key, What: what, Input: in, Impl: impl, Model: model, Broken: broken})
